@@ -4,12 +4,6 @@ Open Scope Z_scope.
 Definition harmless (o : tout) : Prop :=
   match o with TReply _ | TRaise _ | TStop | TUnhandled => True | _ => False end.
 
-Lemma zmem_range_handler pt : zmem pt handler_types = true -> 80 <= pt <= 100.
-Proof.
-  unfold zmem, handler_types. simpl. rewrite !orb_true_iff, !Z.eqb_eq. intros H.
-  repeat destruct H as [H|H]; try lia; discriminate.
-Qed.
-
 (* one connection-layer packet at an unauthenticated server *)
 Lemma no_app_preauth :
   forall sig_ok sid ts p e ts' outs,
@@ -23,12 +17,13 @@ Lemma no_app_preauth :
 Proof.
   intros sig_ok sid ts p e ts' outs Hs Ha Hc Hr H.
   destruct ts as [srv a ch seen nx]. destruct a as [act au us fl gs ex]. simpl in *. subst.
-  destruct p as [m|pt chanid ok].
-  - destruct m; simpl in Hr; lia.
+  destruct p as [m|pt chanid ok ku].
+  - destruct m; unfold ptype_of, gen_msg_service_request, gen_msg_userauth_request,
+      gen_msg_userauth_info_response, gen_msg_userauth_gssapi_mic in Hr; lia.
   - simpl in Hr. unfold loop_step in H. simpl in H.
     unfold ensure_authed, is_authenticated, conn_handler, kill, set_auth, set_expected, set_active in H.
     simpl in H.
-    assert (Hhi : (pt <=? highest_userauth) = false) by (unfold highest_userauth; apply Z.leb_gt; lia).
+    assert (Hhi : (pt <=? highest_userauth) = false) by (unfold highest_userauth, gen_highest_userauth; apply Z.leb_gt; lia).
     rewrite Hhi in H. simpl in H.
     destruct act; simpl in H; [|inversion H; subst; simpl; repeat split; intros o [] ].
     brk H; inversion H; subst; clear H; simpl; repeat split;
@@ -59,12 +54,12 @@ Proof.
 Qed.
 
 Lemma conn_packet_mono :
-  forall sig_ok sid ts pt c ok e ts' outs,
-    loop_step sig_ok sid ts (PConn pt c ok) e = (ts', outs) ->
+  forall sig_ok sid ts pt c ok ku e ts' outs,
+    loop_step sig_ok sid ts (PConn pt c ok ku) e = (ts', outs) ->
     t_server ts' = t_server ts /\
     (a_authed (t_auth ts) = true -> a_authed (t_auth ts') = true).
 Proof.
-  intros sig_ok sid ts pt c ok e ts' outs H.
+  intros sig_ok sid ts pt c ok ku e ts' outs H.
   destruct ts as [srv a ch seen nx]. destruct a as [act au us fl gs ex].
   unfold loop_step in H. simpl in H.
   unfold ensure_authed, is_authenticated, conn_handler, kill, set_auth, set_expected, set_active in H.
@@ -96,26 +91,32 @@ Proof.
       - simpl in H. inversion H; subst. exact Ha.
       - simpl in H. destruct (loop_step sig_ok sid tsa p e) as [t1 o1] eqn:E1.
         destruct (loop_run sig_ok sid t1 r) as [t2 o2] eqn:E2. inversion H; subst.
-        apply (IH _ _ _ E2). destruct p as [m|pt c ok].
+        apply (IH _ _ _ E2). destruct p as [m|pt c ok ku].
         + apply (proj2 (proj2 (proj2 (auth_packet_outputs _ _ _ _ _ _ _ E1)))). exact Ha.
-        + apply (proj2 (conn_packet_mono _ _ _ _ _ _ _ _ _ E1)). exact Ha. }
+        + apply (proj2 (conn_packet_mono _ _ _ _ _ _ _ _ _ _ E1)). exact Ha. }
     assert (F1 : a_authed (t_auth ts1) = false).
     { destruct (a_authed (t_auth ts1)) eqn:X; [|reflexivity].
       rewrite (M _ _ _ _ E2 X) in Hf. discriminate. }
     assert (F0 : a_authed (t_auth ts) = false).
-    { destruct (a_authed (t_auth ts)) eqn:X; [|reflexivity]. destruct p as [m|pt c ok].
+    { destruct (a_authed (t_auth ts)) eqn:X; [|reflexivity]. destruct p as [m|pt c ok ku].
       - rewrite (proj2 (proj2 (proj2 (auth_packet_outputs _ _ _ _ _ _ _ E1))) X) in F1. discriminate.
-      - rewrite (proj2 (conn_packet_mono _ _ _ _ _ _ _ _ _ E1) X) in F1. discriminate. }
+      - rewrite (proj2 (conn_packet_mono _ _ _ _ _ _ _ _ _ _ E1) X) in F1. discriminate. }
     assert (S1 : (forall o, In o o1 -> reaches_service o = false) /\ t_chans ts1 = [] /\ t_server ts1 = true).
-    { destruct p as [m|pt c ok].
+    { destruct p as [m|pt c ok ku].
       - destruct (auth_packet_outputs _ _ _ _ _ _ _ E1) as [A [B [C _]]].
         split; [exact A|]. split; congruence.
-      - destruct (Hk (PConn pt c ok) e (or_introl eq_refl)) as [[m Hm]|Hr]; [discriminate|].
+      - destruct (Hk (PConn pt c ok ku) e (or_introl eq_refl)) as [[m Hm]|Hr]; [discriminate|].
         destruct (no_app_preauth _ _ _ _ _ _ _ Hs F0 Hc Hr E1) as [_ [A [B _]]].
         split; [exact A|]. split; [exact B|].
-        rewrite (proj1 (conn_packet_mono _ _ _ _ _ _ _ _ _ E1)). exact Hs. }
+        rewrite (proj1 (conn_packet_mono _ _ _ _ _ _ _ _ _ _ E1)). exact Hs. }
     destruct S1 as [A1 [C1 Sv1]].
     destruct (IH _ _ _ Sv1 C1 E2 Hk' Hf) as [A2 C2].
     split; [|exact C2].
     intros o Ho. apply in_app_or in Ho. destruct Ho; auto.
 Qed.
+
+Lemma generated_tables :
+  filter (fun p => 80 <=? p) handler_types = [80; 81; 82; 90; 91; 92] /\
+  channel_types = [93; 94; 95; 96; 97; 98; 99; 100] /\ highest_userauth = 79 /\
+  forallb (fun p => (highest_userauth <? p) && (p <=? 100)) (filter (fun p => 80 <=? p) handler_types ++ channel_types) = true.
+Proof. vm_compute. repeat split. Qed.
